@@ -209,4 +209,11 @@ func (box *boxTracker) compactRules(rules []css_ast.Rule, keyRange logger.Range,
 		KeyRange:  keyRange,
 		Important: box.important,
 	}}
+
+	// All four sides now live in the combined declaration: a later longhand
+	// that replaces one side must not blank it (it still provides the others)
+	for i := range box.sides {
+		box.sides[i].ruleIndex = lastRuleIndex
+		box.sides[i].wasSingleRule = false
+	}
 }
